@@ -240,7 +240,7 @@ func c13Run(c *Ctx) {
 		plit := "{" + strings.Join(plain, ", ") + "}"
 		var src string
 		probeOrder := false
-		switch r.Intn(15) {
+		switch r.Intn(16) {
 		case 0: // side effects of initialisers in source order
 			probeOrder = true
 			src = Lines(Fun("p", "t, v", " "+Print("t")+" "+Ret("v")+" "), Var("o", lit), Print("o"))
@@ -271,6 +271,8 @@ func c13Run(c *Ctx) {
 			src = Lines(Var("def", "1"), Print(`"x"`), Var("o", "{"+perm[0]+": 1, "+perm[1]+": নেই_ক, m1: def, m2: নেই_খ, m3: \"s\", m4: নেই_গ, m5: নেই_ঘ}"), Print("o"))
 		case 13: // a failing assignment / read next to several equally similar names
 			src = Lines(Var("price_a", "1"), Var("price_b", "2"), Var("price_c", "3"), Var("pric", "4"), Var("prices", "5"), Print(`"x"`), []string{"price = 9;", Print("price"), "price_d = 1;", "prize = price_a;"}[r.Intn(4)], Print(`"AFTER"`))
+		case 14: // a missing property next to several equally similar ones
+			src = Lines(Var("it", "{nam: 1, dam_k: 2, ekok: 3, mojud: 4, dam_kh: 5, dam_g: 6}"), Print(`"x"`), []string{Print("it.dam"), "it.dam.x = 1;", Print("it.da"), BI("delete", "it", `"dam"`) + ";"}[r.Intn(4)], Print(`"AFTER"`))
 		default: // listing used as data
 			src = Lines(Var("o", plit), Var("acc", `""`), Var("ks", BI("keys", "o")), For(Var("i", "0"), "i < "+BI("len", "ks"), "i = i + 1", "{ acc = acc + ks[i] + \",\"; }"), Print("acc"))
 		}
